@@ -47,7 +47,7 @@ def spec_to_oracle(spec: dict) -> str:
     for st in spec["stages"]:
         ctx = {k: v for k, v in st.get("ctx", {}).items() if k.startswith("k") and k[1:].isdigit()}
         en = st.get("enabled")
-        out.append("STAGE reqs=%s join=%s thr=%d cof=%d fp=%d en=%s mutex=%s choice=%s maxj=%s ctx=%s tasks=%d dis=%s" % (
+        out.append("STAGE reqs=%s join=%s thr=%d cof=%d fp=%d en=%s mutex=%s choice=%s maxj=%s ctx=%s tasks=%d dis=%s sor=%d conds=%s" % (
             ",".join(str(idx[r]) for r in sorted(st.get("reqs", []), key=lambda r: idx[r])),
             st.get("join", "AND"), st.get("threshold", 0),
             1 if st.get("ctx", {}).get("continuePipelineOnFailure") else 0,
@@ -56,7 +56,9 @@ def spec_to_oracle(spec: dict) -> str:
             "-" if st.get("mutex") is None else str(kname(st["mutex"])),
             "-" if st.get("choice") is None else str(kname(st["choice"])),
             "-" if st.get("ctx", {}).get("_max_jumps") is None else str(st["ctx"]["_max_jumps"]),
-            kv_str(ctx), len(st.get("tasks", [])), ",".join(str(x) for x in st.get("skippable_disabled", []))))
+            kv_str(ctx), len(st.get("tasks", [])), ",".join(str(x) for x in st.get("skippable_disabled", [])),
+            1 if st.get("split", "AND") == "OR" else 0,
+            ",".join(f"{idx[r]}:{1 if str(v).strip().lower() in ('true', '1') else 0}" for r, v in st.get("conds", {}).items())))
     wm = spec.get("wctx", {}).get("_max_jumps")
     out.append("WMAX " + ("-" if wm is None else str(wm)))
     for i, st in enumerate(spec["stages"]):
@@ -302,6 +304,10 @@ def families() -> dict[str, dict]:
     f["mutex_pair"] = {"stages": [S("A"), S("B", ["A"], mutex="k1", tasks=[["ok"], ["ok"]]), S("C", ["A"], mutex="k1"), S("D", ["B", "C"])]}
     f["choice3"] = {"stages": [S("A"), S("B", ["A"], choice="k1"), S("C", ["A"], choice="k1"), S("D", ["A"], choice="k1")]}
     f["skippable_disabled"] = {"stages": [S("A", tasks=[["ok"], ["ok"]], skippable_disabled=[0]), S("B", ["A"], tasks=[["ok"]], skippable_disabled=[0])]}
+    f["or_split"] = {"stages": [S("A", split="OR", conds={"B": "true", "C": "false"}), S("B", ["A"]), S("C", ["A"]),
+                                S("J", ["B", "C"], join="OR")]}
+    f["or_split_none"] = {"stages": [S("A", split="OR", conds={"B": "false", "C": "false", "D": "false"}), S("B", ["A"]), S("C", ["A"]),
+                                     S("D", ["A"], tasks=[["ok"], ["ok"]])]}
     f["first_of_leaf"] = {"stages": [S("A"), S("B", ["A"]), S("C", ["A"], tasks=[["ok"], ["ok"], ["ok"]]),
                                      S("J", ["B", "C"], join="DISCRIMINATOR")]}
     f["taskless"] = {"stages": [S("A", tasks=[]), S("B", ["A"])]}
